@@ -23,7 +23,7 @@ T = {
  "C05": ("Lean 4 proof: Laplace determinant (with the zero-skip as coded) = Matrix.det, Gauss-Jordan with partial pivoting invariant, soundness and totality + kappa-scaled correspondence + exact-rank oracle",
          "det model equals Matrix.det for every n; Gauss-Jordan with row exchanges keeps Left = Right*M, its result is a two-sided inverse and it is total on invertible matrices; singular/non-square -> diagnostic. Tied to /repo against exact rational results on structured matrices of size 1..7 (4 n kappa eps for the inverse, (n+2) eps perm for the determinant, laws on general doubles).",
          "known findings C05-singular-residue (exactly singular matrices whose cofactor determinant is a non-zero rounding residue are inverted) and C05-laplace-cancellation (Laplace determinant loses its sign on matrices with two small singular values); determinants that round to 0 are an exclusion (listed)"),
- "C06": ("Lean 4 proof of the memo machine, binomial formulas (floor formula and gcd-reduced product = Nat.choose), branch totality, clamp, Lentz/series recurrences + mpmath-reference correspondence at the literal tolerances",
+ "C06": ("Lean 4 proof of the memo machine, binomial formulas (floor formula and gcd-reduced product = Nat.choose), branch totality, clamp, Lentz/series recurrences on a model whose 31 gamma-family constants (170, Lanczos table, aMax, Inv_GammaP constants) are REGENERATED from Special_Functions.cpp on every run (translator) + mpmath-reference correspondence at the literal tolerances",
          "Proved: factorial memo for every call order, Binomial_Coefficient = Nat.choose on both code paths and symmetric, exactly one GammaQ branch, P,Q in [0,1] and P+Q=1, Lentz index advance and convergents, series positivity, guards (Gamma x<=0, Inv_GammaP/Q p outside [0,1]). Accuracy over the (x,a) domain (a from 1e-320 to 1e4) by correspondence against mpmath: 8/6/16 ulp for the recurrences, 1e-14 references, P,Q in [0,1] exact, monotone at rounding.",
          "accuracy of Lanczos/tgamma, limits of series/continued fraction, quadrature branch, Halley inversion: correspondence-only (mpmath 50 digits)"),
  "C07": ("Lean 4 proof of the algebraic coherence identities, guards, series branch and KDE normalisation + mpmath-reference correspondence and integral oracle",
@@ -47,7 +47,7 @@ T = {
  "C13": ("Lean 4 proof of dispatch/nesting/region layout over abstract 1-D integrators + exact-integral correspondence + bitwise limit-reversal oracle",
          "Proved: swap/equal limits for every method, unknown method -> diagnostic at every level, nesting order per axis, separable => product, nested accuracy 2-D/3-D (conditional), Monte-Carlo region layout, spherical wrapper incl. the full sphere, explicit Gauss-Kronrod depth honoured. Tied to /repo on asymmetric integrands with distinct limits per axis against exact integrals: 1e-9 relative to |I| for five methods, reversal negates bit for bit.",
          "accuracy of the Boost rules: correspondence-only; Trapezoidal's 1e-6 is read relative to the integral of |f| (stated); known finding C13-adaptive-simpson-accidental-zero"),
- "C14": ("Lean 4 proof of containment/accounting/history-independence/cell arithmetic + seeded self-differential correspondence incl. abandoned and nested calls",
+ "C14": ("Lean 4 proof of containment/accounting/history-independence/cell arithmetic on a model whose MISER/VEGAS constants are REGENERATED from Integration.cpp on every run (translator) + seeded self-differential correspondence incl. abandoned and nested calls",
          "Proved: sample points inside the region (brute force; every Miser sample through the whole recursion), Miser accounting/totality/constants exact, independence of the static dithering state, Rebin keeps the Vegas grid increasing, every Vegas array cell read is written first, the stratification odometer (range, maximum attained, full sweep, stale sweep). Tied to /repo with a fixed random_device seed: results after arbitrary histories vs a fresh process bit-for-bit; constants at (n+100) eps / 32 eps.",
          "six-sigma accuracy: correspondence-only; known findings C14-vegas-constants, C14-vegas-peaked-bias, C14-vegas-constant-overflow"),
  "C15": ("Lean 4 proof of Householder/QR algebra over Mathlib matrices + class B correspondence modulo the sign gauge; eigenvector defects as known findings",
@@ -65,7 +65,7 @@ T = {
  "C19": ("Lean 4 proof of the helper specifications + exhaustive class A correspondence on the property's grids + literal-statement oracle",
          "Proved for all arguments: Workload_Distribution spec, Range, Linear_Space (overflow branch value-neutral), Log_Space two-ended form (ends exact, equal spacing in the log), closest-index optimality for any minimiser, list templates (IEEE element type for Lists_Equal), statistics laws. Tied to /repo by exhaustive enumeration and by every pair of doubles for the grids (start == min, strict monotonicity always).",
          "exp/log and sqrt: correspondence-only; rounding-level near ties of Locate_Closest_Location and < 3 ulp per step of Log_Space are listed exclusions"),
- "C20": ("Lean 4 proof on a model REGENERATED from Natural_Units.cpp on every run (translator) + byte-level export/import proofs and correspondence + four-compiler-configuration run",
+ "C20": ("Lean 4 proof on a model REGENERATED from Natural_Units.cpp on every run (translator) + byte-level export/import proofs and correspondence + four-compiler-configuration run; added coverage outside the property: exact text models of Time_Display, Print_Box, Print_Progress_Bar with box-geometry theorems",
          "Proved: six-digit round trip from characters to values (parseDec o render, tokenizer, line counting under any chunking, bytes round trip for tables and lists incl. the empty table), In_Units laws; initialisation-order soundness and derived-unit identities on the regenerated unit table (kernel decide); every quotient of finite doubles is inside the long double reader range. Tied to /repo by comparing exported bytes with the model's rendering and the constants and round trips of builds with g++/clang++ at -O0/-O2.",
          "the translator (Python) and the assumption about compilers (foldable initialisers are folded) are trusted and cross-checked with nm; known finding C20-ragged-total (ragged file whose entry count is divisible by the first row's length); long double is assumed to be x87 80-bit (where it is double the repair 5c3fb95 is a no-op)"),
 }
